@@ -26,6 +26,7 @@ func extractC14(c *ctxT) {
 	// ---- Execute writes -----------------------------------------------------------------------------------
 	type wr struct{ op, store, key, args string }
 	var writes []wr
+	var idxValues []string
 	if fd := c.findFunc(c14Keeper, "DistrStakingMigrate", "Execute"); fd != nil && fd.Body != nil {
 		// assignments `x := pkg.GetXxx(...)` / `x := storetypes.KVStorePrefixIterator(store, pkg.GetXxx(..))`
 		type asg struct {
@@ -114,6 +115,14 @@ func extractC14(c *ctxT) {
 				key = "?" + c.src(ce.Args[0])
 			}
 			writes = append(writes, wr{se.Sel.Name, st.Name, key, args})
+			if key == "GetUnbondingIndexKey" && len(ce.Args) == 2 {
+				// the value the unbonding-id index is pointed at: a record key constructor with its arguments
+				if vk, va, ok := keyOf(ce.Args[1]); ok {
+					idxValues = append(idxValues, vk+"("+va+")")
+				} else {
+					idxValues = append(idxValues, "?"+c.src(ce.Args[1]))
+				}
+			}
 			return true
 		})
 	}
@@ -149,6 +158,9 @@ func extractC14(c *ctxT) {
 	}
 	sb.WriteString("def executeDeleteKeys : List String := " + q(dels) + "\n")
 	sb.WriteString("def executeSetKeys : List String := " + q(sets) + "\n\n")
+	sb.WriteString("/-- the record keys the unbonding-id index (0x38) entries are pointed at, in source order -/\n")
+	sb.WriteString("def unbondingIndexValues : List String := " + q(idxValues) + "\n\n")
+	c.facts["C14.unbondingIndexValues"] = idxValues
 	c.facts["C14.executeDeleteKeys"] = dels
 	c.facts["C14.executeSetKeys"] = sets
 
